@@ -149,8 +149,10 @@ def cmd_batch(acc, batch):
 
     for init, cmd in batch:
         cmd = list(cmd)
-        wf = W.Workflow([W.T("A", ["src"], ["a"], spec="echo A\n"), W.T("B", ["a"], ["out/b"], spec="echo B\n"), W.T("C", ["out/b"], ["c"], spec="echo C\n", protect=["c"])])
-        files = {"src": (1, "s"), "nested/dir/keep": (1, "k")}
+        # the workflow file imports a helper module that lives next to it; modules of the same name sit in the other invoking directories
+        wf = W.Workflow([W.T("A", ["src"], ["a"], spec="echo A\n"), W.T("B", ["a"], ["out/b"], spec="echo B\n"), W.T("C", ["out/b"], ["c"], spec="echo C\n", protect=["c"])],
+                        header="import c19helper\nassert c19helper.WHO == 'project', 'helper module imported from ' + c19helper.WHO")
+        files = {"src": (1, "s"), "nested/dir/keep": (1, "k"), "c19helper.py": (1, "WHO = 'project'\n"), "nested/dir/c19helper.py": (1, "WHO = 'the nested invoking directory'\n")}
         if init in ("built", "half"):
             files.update({"a": (2, "a")})
         if init == "built":
@@ -166,6 +168,8 @@ def cmd_batch(acc, batch):
             with W.Session(w0) as s:
                 other = os.path.join(s.dir, "elsewhere")
                 os.makedirs(other, exist_ok=True)
+                with open(os.path.join(other, "c19helper.py"), "w") as f:
+                    f.write("WHO = 'the unrelated invoking directory'\n")
                 for p_ in ("src", "a", "out/b", "c"):
                     os.makedirs(os.path.dirname(os.path.join(other, p_)), exist_ok=True)
                     with open(os.path.join(other, p_), "w") as f:
@@ -176,7 +180,7 @@ def cmd_batch(acc, batch):
                     cwd, pre = os.path.join(s.proj, "nested", "dir"), []
                 else:
                     cwd, pre = other, ["-f", "../proj/workflow.py"]
-                r = s.gwf(pre + cmd, cwd=cwd)
+                r = s.gwf(pre + cmd, cwd=cwd, cwd_on_path=True)
                 acc.extra["invocations"] += 1
                 after = s.snapshot()
                 decoys = {p_: (open(os.path.join(other, p_)).read() if os.path.exists(os.path.join(other, p_)) else None) for p_ in ("src", "a", "out/b", "c")}
